@@ -374,3 +374,78 @@ fn c10_o1b_response_roundtrip() {
     std::mem::forget(r);
     std::mem::forget(m);
 }
+
+static mut PARSER_CALLS: usize = 0;
+static mut PARSER_LEN: usize = 0;
+static mut PARSER_FIRST: u8 = 0;
+static mut PARSER_OK: bool = false;
+/// `internal::DHTMessage::from_bytes` (the serde_bencode parser) as an oracle: records what it was
+/// given and answers, per a harness-drawn verdict, a minimal error message or a parse error.
+fn parser_oracle(bytes: &[u8]) -> Result<internal::DHTMessage, serde_bencode::Error> {
+    unsafe {
+        PARSER_CALLS += 1;
+        PARSER_LEN = bytes.len();
+        PARSER_FIRST = if bytes.is_empty() { 0 } else { bytes[0] };
+        if PARSER_OK {
+            Ok(internal::DHTMessage {
+                transaction_id: vec![b'a', b'a'],
+                version: None,
+                ip: None,
+                read_only: None,
+                variant: internal::DHTMessageVariant::Error(internal::DHTErrorSpecific { error_info: (201, String::new()) }),
+            })
+        } else {
+            Err(serde_bencode::Error::EndOfStream)
+        }
+    }
+}
+
+static mut CONVERT_CALLS: usize = 0;
+/// `Message::from_serde_message` as a probe in C10.O3 (the conversion itself is C05.O1* / C10.O1*)
+fn convert_probe(msg: internal::DHTMessage) -> Result<Message, DecodeMessageError> {
+    unsafe { CONVERT_CALLS += 1 };
+    let tid = if msg.transaction_id.len() == 2 { ((msg.transaction_id[0] as u32) << 8) | msg.transaction_id[1] as u32 } else { 0 };
+    std::mem::forget(msg);
+    Ok(Message { transaction_id: tid, version: None, requester_ip: None, read_only: false, message_type: MessageType::Error(ErrorSpecific { code: 201, description: String::new() }) })
+}
+
+//@ ob: C10.O3
+//@ tier: quick
+//@ cap: 900
+//@ also: C05
+//@ desc: Message::from_bytes glue around the bencode parser: total on every byte string of length 0..=64; a datagram is refused before parsing only if it does not start with 'd' or is shorter than the shortest well-formed KRPC message (25 bytes: an error with empty description and a 2-byte transaction id, d1:eli0e0:e1:t2:aa1:y1:ee); every other datagram is handed unchanged to the parser exactly once, a parser error becomes a decode error (no panic), and a parsed message is handed to from_serde_message exactly once (whose totality and field mapping are C05.O1a-g / C10.O1*)
+//@ bounds: datagram length symbolic 0..=64, contents symbolic; parser verdict symbolic (oracle); unwind 8
+//@ outside: the serde_bencode byte parser itself (not executable symbolically: DESIGN.md section 9)
+//@ stubs: internal::DHTMessage::from_bytes (serde_bencode) -> oracle recording its input, answering a minimal error message or a parse error; Message::from_serde_message -> probe (call counted, transaction id passed through)
+//@ functions: Message::from_bytes
+#[kani::proof]
+#[kani::stub(internal::DHTMessage::from_bytes, parser_oracle)]
+#[kani::stub(Message::from_serde_message, convert_probe)]
+#[kani::unwind(8)]
+fn c10_o3_from_bytes_gate() {
+    let buf: [u8; 64] = kani::any();
+    let len: usize = kani::any();
+    kani::assume(len <= 64);
+    let ok: bool = kani::any();
+    unsafe { PARSER_OK = ok };
+    let r = Message::from_bytes(&buf[..len]);
+    let calls = unsafe { PARSER_CALLS };
+    if len >= 25 && buf[0] == b'd' {
+        assert!(calls == 1, "C10.O3 a datagram as long as the shortest KRPC message is handed to the parser");
+        assert!(unsafe { PARSER_LEN == len && PARSER_FIRST == buf[0] }, "C10.O3 the parser sees the datagram unchanged");
+        assert!(r.is_ok() == ok, "C10.O3 a parsed message decodes, a parser error is a decode error");
+        assert!(unsafe { CONVERT_CALLS } == ok as usize, "C10.O3 a parsed message is converted exactly once");
+    }
+    if calls == 0 {
+        assert!(r.is_err(), "C10.O3 nothing is decoded without parsing");
+        assert!(len < 25 || buf[0] != b'd', "C10.O3 only too-short or non-dictionary datagrams are refused before parsing");
+    }
+    if let Ok(m) = &r {
+        assert!(m.transaction_id == 0x6161 && matches!(&m.message_type, MessageType::Error(e) if e.code == 201), "C10.O3 the parsed message is what is returned");
+    }
+    kani::cover!(r.is_ok() && len == 25);
+    kani::cover!(calls == 1 && r.is_err());
+    kani::cover!(calls == 0 && len == 64);
+    kani::cover!(calls == 0 && len == 0);
+    std::mem::forget(r);
+}
